@@ -3,6 +3,9 @@
 import json, os
 V = os.path.dirname(os.path.dirname(os.path.abspath(__file__)))
 INFO = {
+ "C18d": ("EEA trailing-bit mask shift clamped with .max(2): a shift of 1 becomes 2", "LENGTH % 32 == 31 with the last valid bit set: that bit is cleared, double application does not restore the message"),
+ "C16e": ("sm9_u256_hash1 truncates the identity to id.len() as u8 bytes before framing", "an identity of 256 bytes or more: H1 hashes only its first (len mod 256) bytes; extracted keys collide across long identities"),
+ "C14d": ("random_u256 draws from a thread-local StdRng whose seed line fills a temporary copy (`OsRng.fill_bytes(&mut { seed })`): every thread's generator is keyed with zeros", "scalars compared across threads or processes: the n-th scalar of every fresh thread is the same (same keys, same nonces); one thread alone looks fine"),
  "C02": ("Sm4Cipher::decrypt uses rk[31-(4i+1)] instead of rk[31-(4i+2)] for the x[2] step (copy-paste)", "any call of decrypt (no existing test calls it)"),
  "C03": ("compute_za writes the ENTL high byte from the BYTE length (id.len() >> 8) instead of the bit length", "a signer ID of 32 bytes or more"),
  "C04": ("verify_raw decodes s through fn_reduce, so the range check s < n is vacuous: (r, s+n) is accepted", "a valid signature with s < 2^256 - n (about 2^-32 of signatures)"),
